@@ -62,11 +62,11 @@ type futureSpec struct {
 	ToolVia  []string `json:"tool_via"` // the tool calls its inner runnable with "invoke" | "stream"
 	// ModelImpl: "plain" | "graph" | "chain": the agent's model is a wrapper that runs a compiled graph /
 	// chain holding the scripted model, with the context it was handed
-	ModelImpl   string `json:"model_impl"`
-	ModifierVia string `json:"modifier_via,omitempty"` // "graph": the MessageModifier runs a compiled graph first
-	HandlerImpl string `json:"handler_impl,omitempty"` // "graph": the unknown-tools handler runs a compiled graph
-	Unbuffered  bool   `json:"unbuffered"`             // models and tools stream through unbuffered pipes
-	Runs        [][]futRun `json:"runs"`               // per agent
+	ModelImpl   string     `json:"model_impl"`
+	ModifierVia string     `json:"modifier_via,omitempty"` // "graph": the MessageModifier runs a compiled graph first
+	HandlerImpl string     `json:"handler_impl,omitempty"` // "graph": the unknown-tools handler runs a compiled graph
+	Unbuffered  bool       `json:"unbuffered"`             // models and tools stream through unbuffered pipes
+	Runs        [][]futRun `json:"runs"`                   // per agent
 }
 
 var futToolImpls = []string{"plain", "graph", "graph", "graph2", "chain", "workflow", "graph-model", "chain-model", "agent", "agent", "agent-future", "host"}
@@ -295,7 +295,9 @@ func buildInner(c *caseSpec, ts toolSpec, impl, via string) *innerRun {
 	leaf := func() *compose.Lambda {
 		l, err := compose.AnyLambda(
 			func(ctx context.Context, in string, _ ...any) (string, error) { return inv(ctx, in) },
-			func(ctx context.Context, in string, _ ...any) (*schema.StreamReader[string], error) { return str(ctx, in) },
+			func(ctx context.Context, in string, _ ...any) (*schema.StreamReader[string], error) {
+				return str(ctx, in)
+			},
 			nil, nil)
 		must(err)
 		return l
@@ -314,7 +316,9 @@ func buildInner(c *caseSpec, ts toolSpec, impl, via string) *innerRun {
 	fromRunnable := func(r compose.Runnable[string, string], err error) {
 		must(err)
 		rInvoke = func(ctx context.Context, args string) (string, error) { return r.Invoke(ctx, args) }
-		rStream = func(ctx context.Context, args string) (*schema.StreamReader[string], error) { return r.Stream(ctx, args) }
+		rStream = func(ctx context.Context, args string) (*schema.StreamReader[string], error) {
+			return r.Stream(ctx, args)
+		}
 	}
 	switch impl {
 	case "graph":
